@@ -43,7 +43,7 @@ func version(k int, uniq string) *mach.ASpec {
 				{HasPat: true, Pat: map[string]interface{}{x: float64(k)}, Guard: []mach.Op{{Name: "set", K: "guarded", V: tag}}, Target: "n2"},
 				{Guard: []mach.Op{{Name: "retnull"}}, Target: "bad"},
 				{HasPat: true, Pat: map[string]interface{}{}, Target: "n2"}}},
-		"n2":  {Native: true, Act: []mach.Op{{Name: "emit", V: map[string]interface{}{"v": tag, "at": "n2"}}, {Name: "del", K: x}}, BType: "bindings", Branches: []mach.ABranch{{Target: "n0"}}},
+		"n2": {Native: true, Act: []mach.Op{{Name: "emit", V: map[string]interface{}{"v": tag, "at": "n2"}}, {Name: "del", K: x}}, BType: "bindings", Branches: []mach.ABranch{{Target: "n0"}}},
 		"nat": {Native: true, Act: []mach.Op{{Name: "emit", V: map[string]interface{}{"v": tag, "at": "nat"}}, {Name: "set", K: "n", V: tag}}, BType: "bindings",
 			Branches: []mach.ABranch{{Guard: []mach.Op{{Name: "set", K: "g", V: tag}}, Target: "n0"}}},
 		"bad": {Act: []mach.Op{{Name: "emit", V: map[string]interface{}{"v": tag, "at": "bad"}}, {Name: "throw"}}, BType: "bindings", Branches: []mach.ABranch{{Target: "n0"}}},
